@@ -195,7 +195,7 @@ def parseVal (E : RegexEngine) (ic : Bool) (e : Expr) (f : Str) (misc : Option M
     | .ok x => .ok (wrapNot misc (.nested f x))
   | .seq s =>
     let unmatched : Expr := match e with | .match _ x => x | x => x
-    match parseMembers E ic f misc unmatched s {} with
+    match parseMembers E ic f misc unmatched s { cast := misc == some .str } with
     | .error err => .error err
     | .ok st =>
       let (group, multiple) := batchMembers st f
